@@ -26,6 +26,7 @@ def run(chk):
     TR.compress_sweep(chk, src)
     TR.compress_precondition(chk, src)
     TR.must_update(chk, src)
+    TR.chain_conversion(chk, src)
     if chk.tier == "thorough":
         TR.environment_networks(chk, src, topologies=("binary", "star", "two"))
         TR.state_networks(chk, src, topologies=("binary", "star", "two"), which=("merge", "apply", "todense_s", "expectation1", "rdm1", "rdm2"))
